@@ -60,7 +60,7 @@ def enumerate_states(tier, seed):
     meta["bound_completed"] = ("thorough: full product type x size x 32 orientations x 4 offsets x margin x 30 directions x 3 norms + dense family "
                                "type x size x 672 orientations x 2 offsets x 146 directions x 3 norms"
                                if tier == "thorough" else
-                               "quick: type x size x all 28 orientations complete; offsets/margin: all pairs of deviations "
+                               "quick: type x size x all 32 orientations complete; offsets/margin: all pairs of deviations "
                                "+ seed-selected full slice; each with 30 directions x 3 norms; mesh cache BFS to closure")
     meta["exhaustive"] = tier == "thorough"
     states += winding_states()
